@@ -847,6 +847,13 @@ func (c *Ctx) arith(op token.Token, a, b Sc, t types.Type, yt types.Type, reach 
 		if reach != "" {
 			c.oblige("div", "", reach, fmt.Sprintf("(not (= %s %s))", b.T, bvlit(w, 0)), pos, txt+": divisor != 0")
 		}
+		constDiv := strings.HasPrefix(b.T, "#x") || strings.HasPrefix(b.T, "#b")
+		if !constDiv && (w == 8 || w == 16 || w == 32 || w == 64) {
+			if op == token.QUO {
+				return bin(fmt.Sprintf("%s%d", sg("sdiv", "udiv"), w))
+			}
+			return bin(fmt.Sprintf("%s%d", sg("srem", "urem"), w))
+		}
 		if op == token.QUO {
 			return bin(sg("bvsdiv", "bvudiv"))
 		}
@@ -1039,6 +1046,15 @@ func (c *Ctx) convertVal(v Val, from, to types.Type, st *State, reach string, po
 			eb, sb = 8, 24
 		}
 		a := v.(Sc).T
+		if !strings.HasPrefix(a, "#x") && !strings.HasPrefix(a, "#b") {
+			// a non-constant integer converted to floating point: uninterpreted (like the float arithmetic itself) -
+			// a sound abstraction: what is proved holds for every interpretation, in particular IEEE rounding
+			sg := "u"
+			if sf {
+				sg = "s"
+			}
+			return Sc{fmt.Sprintf("(i2f_%s%d_%s %s)", sg, wf, srt, a), srt}
+		}
 		if sf {
 			return Sc{fmt.Sprintf("((_ to_fp %d %d) RNE %s)", eb, sb, a), srt}
 		}
